@@ -153,6 +153,7 @@ func (c *Ctx) StoreHelperRules(prop string, s *Slashing, kind string) map[*ssa.F
 				}
 				// in the body: keys[idx] = make(...)
 				var elemMk *ssa.MakeSlice
+				var elemCall *ssa.Call
 				var valStore *ssa.Store
 				for b := range l.Body {
 					for _, ins := range b.Instrs {
@@ -166,13 +167,14 @@ func (c *Ctx) StoreHelperRules(prop string, s *Slashing, kind string) map[*ssa.F
 						}
 						if sliceRootExact(ia.X) == ssa.Value(keysMk) {
 							elemMk, _ = st.Val.(*ssa.MakeSlice)
+							elemCall, _ = st.Val.(*ssa.Call)
 						}
 						if sliceRootExact(ia.X) == ssa.Value(valsMk) {
 							valStore = st
 						}
 					}
 				}
-				if elemMk == nil || valStore == nil {
+				if (elemMk == nil && elemCall == nil) || valStore == nil {
 					whyAll = "the loop does not assign both keys[i] and values[i] at its own index"
 					continue
 				}
@@ -189,7 +191,15 @@ func (c *Ctx) StoreHelperRules(prop string, s *Slashing, kind string) map[*ssa.F
 					}
 					return isKey(v)
 				}
-				pk, gg, why := keyBuildOf(fn, elemMk, isKey, inKey)
+				var pk ssa.Value
+				var gg *ssa.Global
+				var why string
+				if elemMk != nil {
+					pk, gg, why = keyBuildOf(fn, elemMk, isKey, inKey)
+				} else {
+					// keys[i] = helper(pubKeys[i], action)
+					pk, gg, why = keyBuild(fn, elemCall)
+				}
 				if why != "" {
 					whyAll = "database key: " + why
 					continue
